@@ -47,11 +47,12 @@ class State:
         self.verbose_cfg = False
         self.symlink = False       # a second path to cmds/a.rs through a symbolic link inside the scanned tree
         self.qualmaps = False      # type_mappings holds several path-qualified keys with one last segment
+        self.rich_events = True    # the project's events include one whose payload struct nothing else reaches
         self.out_cfg = None        # spelling of the output path in the configuration (None = "./" + out_rel)
         self.proj_cfg = None
 
     def key(self):
-        return json.dumps([self.attrs, self.has_cmds, self.has_events, self.viz, self.nfiles], sort_keys=True)
+        return json.dumps([self.attrs, self.has_cmds, self.has_events, self.viz, self.nfiles, self.rich_events, self.qualmaps, self.symlink], sort_keys=True)
 
 
 def render(st):
@@ -177,10 +178,7 @@ pub fn tick(window: tauri::Window) {
     window.emit("tick", 1).ok();
 }
 
-pub fn report_job(app: tauri::AppHandle, report: JobReport) {
-    app.emit("job-report", report).ok();
-}
-
+%s
 // the same variable names as in `notify`, but nothing here says what their types are
 pub fn report(app: tauri::AppHandle, id: u32) {
     let user = lookup(id);
@@ -188,7 +186,11 @@ pub fn report(app: tauri::AppHandle, id: u32) {
     app.emit("user-looked-up", user).ok();
     app.emit("address-looked-up", &address).ok();
 }
-""" % (payload, ev_name, pvar, extra_ev)
+""" % (payload, ev_name, pvar, extra_ev,
+       # an emit whose payload struct nothing else reaches - only in projects that had events from the start: the first
+       # emit calls added to an event-free project must not bring a new type with them (the step "events appear" has to
+       # change the events and nothing else, or a cache that ignores events is excused by the struct hash)
+       'pub fn report_job(app: tauri::AppHandle, report: JobReport) {\n    app.emit("job-report", report).ok();\n}\n' if st.rich_events else "")
     else:
         ev_rs = "pub fn notify() {}\n"
     cfg = {
@@ -820,6 +822,7 @@ def replay_history(root, hist, has_events, viz, case, driver_override=None, nfil
     st.has_cmds = bool(has_cmds)
     st.symlink = bool(symlink)
     st.qualmaps = bool(qualmaps)
+    st.rich_events = bool(has_events)
     st.nfiles = nfiles
     if setup:
         setup(st, root)
